@@ -249,6 +249,12 @@ func main() {
 		return
 	}
 
+	if os.Getenv("VERIF_C02_FAMILY") == "concurrent" { // debugging aid: the concurrent-use family alone
+		runConcurrentUse()
+		run.Finish(0)
+		return
+	}
+
 	runCanaries()
 
 	n := run.Pick(1500, 12000)
@@ -261,6 +267,7 @@ func main() {
 		}
 		runCase(i)
 	})
+	runConcurrentUse()
 	if s := skipped.Load(); s > 0 {
 		run.Inconclusive("watchdog: %d of %d cases not executed before the deadline", s, n)
 	}
